@@ -89,6 +89,20 @@ m("c17-reset-on-unfragmented", SS, "            if decode {\n                let
 m("c05-fill-from-first", SS, "messages::unarmor(&ais_sentence.data, ais_sentence.fill_bit_count as usize)?;", "messages::unarmor(&ais_sentence.data, ais_sentence.num_fragments as usize)?;", ["C05"])
 m("c06-accept-gap", SS, ".checked_sub(self.fragment_number) != Some(1)", ".checked_sub(self.fragment_number).map_or(true, |d| d == 0 || d > 2)", ["C06"])
 n("n-c06-wrapping-form", SS, "if ais_sentence.fragment_number.checked_sub(self.fragment_number) != Some(1) {", "if self.fragment_number == u8::MAX || ais_sentence.fragment_number != self.fragment_number + 1 {", ["C05", "C06", "C17"])
+# ---- C02 / C07 / C19
+m("c02-low-nibble", SS, "if expected_checksum != received_checksum {", "if expected_checksum & 0x0f != received_checksum & 0x0f {", ["C02"])
+m("c02-only-when-decoding", SS, "        Self::check_checksum(data, checksum)?;", "        if decode {\n            Self::check_checksum(data, checksum)?;\n        }", ["C02"])
+m("c02-skip-for-fragments", SS, "        Self::check_checksum(data, checksum)?;\n        if ais_sentence.has_more() {", "        if !ais_sentence.is_fragment() {\n            Self::check_checksum(data, checksum)?;\n        }\n        if ais_sentence.has_more() {", ["C02"])
+m("c02-fold-from-1", SS, "sentence.iter().fold(0u8, |acc, &item| acc ^ item)", "sentence.iter().fold(1u8, |acc, &item| acc ^ item)", ["C02"])
+m("c02-skip-first-byte", SS, "sentence.iter().fold(0u8, |acc, &item| acc ^ item)", "sentence.iter().skip(1).fold(0u8, |acc, &item| acc ^ item)", ["C02"])
+m("c02-expected-found-swapped", SS, "                expected: expected_checksum,\n                found: received_checksum,", "                expected: received_checksum,\n                found: expected_checksum,", ["C02"])
+m("c02-raw-after-talker", SS, "    let (data, raw) = peek(take_until(\"*\"))(data)?;\n    let (data, msg) = terminated(parse_ais_sentence, tag(\"*\"))(data)?;", "    let (_, raw) = peek(take_until(\"*\"))(&data[data.len().min(2)..])?;\n    let (data, msg) = terminated(parse_ais_sentence, tag(\"*\"))(data)?;", ["C02"])
+m("c02-check-after-reset", SS, "        Self::check_checksum(data, checksum)?;\n        if ais_sentence.has_more() {\n            if ais_sentence.fragment_number == 1 {\n                self.message_id = ais_sentence.message_id;\n                self.fragment_number = 0;\n                self.data = AisRawData::default();\n            }", "        if ais_sentence.has_more() {\n            if ais_sentence.fragment_number == 1 {\n                self.message_id = ais_sentence.message_id;\n                self.fragment_number = 0;\n                self.data = AisRawData::default();\n            }\n            Self::check_checksum(data, checksum)?;", ["C02"])
+m("c07-ab-as-ad", SS, "b\"AB\" => Self::AB,", "b\"AB\" => Self::AD,", ["C07"])
+m("c07-fill-from-id", SS, "            fill_bit_count,\n            message_type,", "            fill_bit_count: message_id.unwrap_or(fill_bit_count),\n            message_type,", ["C07"])
+m("c07-channel-from-payload", SS, "let (_, channel) = opt(anychar)(channel_bytes)?;\n    let (data, _) = tag(\",\")(data)?;\n    let (data, ais_data) = take_until(\",\")(data)?;", "let (data, _) = tag(\",\")(data)?;\n    let (data, ais_data) = take_until(\",\")(data)?;\n    let (_, channel) = opt(anychar)(if channel_bytes.is_empty() { channel_bytes } else { ais_data })?;", ["C07"])
+m("c07-decode-guards-swap", SS, "            if ais_sentence.is_fragment() {\n                self.verify_and_extend_data(&ais_sentence)?;", "            if ais_sentence.is_fragment() && decode {\n                self.verify_and_extend_data(&ais_sentence)?;", ["C07", "C05"])
+m("c19-5-bits", S + "parsers.rs", "pub fn message_type_bits(data: (&[u8], usize)) -> IResult<(&[u8], usize), u8> {\n    take_bits(6u8)(data)", "pub fn message_type_bits(data: (&[u8], usize)) -> IResult<(&[u8], usize), u8> {\n    take_bits(5u8)(data)", ["C19", "C09"])
 # ---- neutral edits
 n("n-t16-gt-51", S + "assignment_mode_command.rs", "if remaining_bits >= 52 {", "if remaining_bits > 51 {", ["C04", "C14"])
 n("n-t12-error-kind", S + "addressed_safety_related.rs", "nom::error::ErrorKind::Eof,", "nom::error::ErrorKind::Digit,", ["C04", "C14", "C09"])
